@@ -203,7 +203,7 @@ class C21(Check):
         "payload pages are untouched before READY by construction (no relocations target them, no code in them has run)",
         "a wild failure (non-zero exit) when the output is busy is allowed by the statement; only exit-0 relinks must leave the new output",
     ]
-    quick_cases = 80
+    quick_cases = 160
     thorough_cases = 2000
     max_workers = 12
 
@@ -214,7 +214,9 @@ class C21(Check):
             "n_ro": st.integers(70, 130),
             "n_fn": st.integers(34, 60),
             "delta": st.integers(3, 40),
-            "peer": st.sampled_from(["none", "none", "peer_exists", "run_via_peer"]),
+            # how the output path relates to the file the process runs: a hard-linked peer name, or the output
+            # path is a symlink to the real file (libfoo.so -> libfoo.so.1) and the process opened either name
+            "peer": st.sampled_from(["none", "none", "peer_exists", "run_via_peer", "symlink", "symlink_run_real"]),
             "threads": st.sampled_from([0, 1, 2, 4]),
             "fork": st.booleans(),
             "id_old": st.integers(1, 30000),
@@ -291,7 +293,15 @@ class C21(Check):
             argv, argv_ctl = ["./mainprog", "./libpayload.so"], ["./mainprog", "./ctl/libpayload.so"]
         else:
             argv, argv_ctl = ["./prog"], ["./ctl/prog"]
-        if case["peer"] != "none":
+        if case["peer"] in ("symlink", "symlink_run_real"):
+            os.rename(os.path.join(w, path), os.path.join(w, path + ".real"))
+            os.symlink(path + ".real", os.path.join(w, path))
+            if case["peer"] == "symlink_run_real":
+                if exe_kind:
+                    argv = ["./prog.real"]
+                elif kind == "shlib_dlopen":
+                    argv = ["./mainprog", "./libpayload.so.real"]
+        elif case["peer"] != "none":
             os.link(os.path.join(w, path), os.path.join(w, path + ".peer"))
             if case["peer"] == "run_via_peer":
                 if exe_kind:
